@@ -222,18 +222,68 @@ Proof.
         cbn. rewrite Bool.orb_true_r. reflexivity.
 Qed.
 
+(** a thread leaves [Idle] only by its Start *)
+Lemma idle_step s l s1 t :
+  step s l = Some s1 -> pcof s t = Idle -> (forall c, l <> Start t c) -> pcof s1 t = Idle.
+Proof.
+  intros H Hi Hl. destruct l as [t1 c1|t1 f1|t1|c1].
+  - destruct (Nat.eq_dec t1 t) as [->|Hne]; [exfalso; eapply Hl; reflexivity|].
+    step_cases H. cbn. rewrite upd_neq by congruence. exact Hi.
+  - destruct (Nat.eq_dec t1 t) as [->|Hne].
+    + cbn in H. unfold op_step in H. rewrite Hi in H. discriminate.
+    + step_cases H; cbn; rewrite ?upd_neq by congruence; exact Hi.
+  - destruct (Nat.eq_dec t1 t) as [->|Hne].
+    + cbn in H. rewrite Hi in H. discriminate.
+    + cbn in H. destruct (finished (pcof s t1)); [discriminate|]. injection H as <-.
+      cbn. crash_norm. rewrite upd_neq by congruence. exact Hi.
+  - step_cases H. exact Hi.
+Qed.
+
+Lemma started_in_history evs t : forall s s1 b,
+  replay s evs = Some (s1, b) -> pcof s t = Idle -> pcof s1 t <> Idle ->
+  exists c, In (EStart t c) evs.
+Proof.
+  induction evs as [|e r IH]; intros s s1 b H Hi Hn; cbn in H.
+  - injection H as <- _. contradiction.
+  - destruct (step s (label_of e)) as [s2|] eqn:Es; [|discriminate].
+    destruct (replay s2 r) as [[s3 b3]|] eqn:Er; [|discriminate]. injection H as <- _.
+    destruct e as [t1 c1|t1 f1 k1 kc1 v1|t1|c1]; cbn [label_of] in Es.
+    1: destruct (Nat.eq_dec t1 t) as [->|Hne]; [exists c1; left; reflexivity|].
+    all: (destruct (IH s2 s3 b3 Er) as [c Hc]; [|exact Hn|exists c; right; exact Hc]);
+      eapply idle_step; [exact Es|exact Hi|intros c0 X; try discriminate X; congruence].
+Qed.
+
+Lemma spec_lock_ok evs s f :
+  replay init evs = Some (s, true) -> reachable s -> final_agree s f = true -> spec_lock evs f = true.
+Proof.
+  intros Hrep Hr Hf. unfold spec_lock. destruct (all_finished evs f) eqn:Ha; [cbn|reflexivity].
+  unfold final_agree in Hf. apply Bool.andb_true_iff in Hf. destruct Hf as [Hf Hl].
+  apply Bool.andb_true_iff in Hf. destruct Hf as [_ Hres].
+  assert (Hq : forall t, finished (pcof s t) = true).
+  { intros t. destruct (pcof s t) eqn:Hp; try reflexivity; exfalso.
+    all: destruct (started_in_history evs t init s true Hrep eq_refl) as [c Hc]; [rewrite Hp; discriminate|].
+    all: unfold all_finished in Ha; rewrite forallb_forall in Ha; specialize (Ha _ Hc); cbn in Ha.
+    all: apply existsb_exists in Ha; destruct Ha as [[t' x] [Hin Ht']]; apply Nat.eqb_eq in Ht'; subst t'.
+    all: rewrite forallb_forall in Hres; specialize (Hres _ Hin); destruct x as [lo k]; cbn in Hres.
+    all: rewrite Hp in Hres; cbn in Hres; discriminate Hres. }
+  rewrite (lock_free_when_quiescent s Hr Hq) in Hl. destruct (f_lock_free f); [reflexivity|discriminate Hl].
+Qed.
+
 (** every clause of the monitor — (a) registrations bounded, (b) persisted together, (c) reuse
     of the stored account, (d) the recreate path deletes only a stored account the CA has
-    forgotten, (e) only the directory in use is touched — holds on every history, sequential or
+    forgotten, (e) only the directory in use is touched, (f) the lock is free once nothing is in
+    flight — holds on every history, sequential or
     concurrent, on which the model and the observation agree *)
 Theorem monitor_sound evs s f :
   replay init evs = Some (s, true) -> final_agree s f = true -> spec_hist evs f = true.
 Proof.
   intros Hrep Hf. destruct (replay_sim evs init oinit s) as [Hs Hr]; auto.
   { exists []. reflexivity. } { exact sim_init. }
+  pose proof Hf as Hf0.
   unfold final_agree in Hf. apply Bool.andb_true_iff in Hf. destruct Hf as [Hf _].
   apply Bool.andb_true_iff in Hf. destruct Hf as [Hc Hres].
-  unfold spec_hist, orun. rewrite (sim_oke _ _ Hs), (sim_okd _ _ Hs). cbn.
+  unfold spec_hist. rewrite (spec_lock_ok evs s f Hrep Hr Hf0), Bool.andb_true_r.
+  unfold orun. rewrite (sim_oke _ _ Hs), (sim_okd _ _ Hs). cbn.
   eapply spec_cas_ok; eassumption.
 Qed.
 
